@@ -108,6 +108,26 @@ pub fn run(out: &mut Out, tier: &str, seed: u64) {
         for (name, r) in entry::get_entries(&bad, &p) {
             report(out, name, &bad, &r);
         }
+        // values the skipper steps over but a full parse rejects (overflowing numbers, lone surrogates, invalid UTF-8
+        // inside a string): errors that arise only when the selected value is parsed on its own
+        {
+            let mut d2 = doc.clone();
+            let spots: Vec<usize> = (1..d2.len()).filter(|&i| (d2[i].is_ascii_digit() || d2[i] == b'"' || d2[i] == b't' || d2[i] == b'n') && matches!(d2[i - 1], b':' | b'[' | b',' | b' ' | b'\n')).collect();
+            if !spots.is_empty() {
+                let at = spots[rng.below(spots.len())];
+                let ins: &[u8] = *rng.pick(&[&b"1e999,"[..], b"-2E400 ,", b"\"\\ud800\",", b"\"x\\udc00\",", b"\"\xff\",", b"[1e999],"]);
+                for (k, b) in ins.iter().enumerate() {
+                    d2.insert(at + k, *b);
+                }
+                out.count("mut:deep-only");
+                for (name, r) in entry::parse_entries(&d2) {
+                    report(out, name, &d2, &r);
+                }
+                for (name, r) in entry::get_entries(&d2, &p) {
+                    report(out, name, &d2, &r);
+                }
+            }
+        }
         latch_cases(out, &bad);
         let ss = scalar_stream(&mut rng);
         latch_cases(out, &ss);
